@@ -65,6 +65,12 @@ def features(e, out=None):
         kids = _children(x)
         if k == 'Sub' and x[2][0] == 'Tuple' and len(x[2][1]) == 1:
             found.add('single-element-tuple-subscript-loses-comma')
+        if k == 'Call':
+            f = x[1]
+            while f[0] == 'Attr':
+                f = f[1]
+            if f[0] == 'Name' and f[1] != 'len':
+                found.add('lambda-form:call-through-closure-variable-raises-NameError')
         if k in ('Attr', 'Sub', 'Slice', 'Call'):
             prim = x[1]
             if prim[0] == 'IfExp':
@@ -108,12 +114,14 @@ def features(e, out=None):
              'conditional-expression-operand-not-parenthesised', 'lambda-operand-not-parenthesised',
              'primary-of-attribute-subscript-call-not-parenthesised', 'attribute-of-int-literal',
              'single-element-tuple-subscript-loses-comma', 'generator-form:bare-formatted-value-loses-str-conversion',
-             'generator-form:negative-constant-base-of-power-not-parenthesised']
+             'generator-form:negative-constant-base-of-power-not-parenthesised',
+             'lambda-form:call-through-closure-variable-raises-NameError']
     return [f for f in order if f in found]
 
 
 def signature(part, feats, form=None):
-    feats = [f for f in feats if not f.startswith('generator-form:') or form in ('generator', 'lambda')]
+    feats = [f for f in feats if not (f.startswith('generator-form:') and form not in ('generator', 'lambda'))
+             and not (f.startswith('lambda-form:') and form != 'lambda')]
     return 'C04:%s' % (feats[0] if feats else part + ':no-known-feature')
 
 
@@ -139,7 +147,7 @@ def check_regeneration(ctx, c, pts, r, names, space):
     plain, envs = envs_for(names, k)
     if len(envs) != len(exp):
         raise MachineryError('table of %s has %d points, expected %d' % (src, len(exp), len(envs)))
-    got = table_of_code(compile(src, '<c04>', 'eval'), envs)
+    got = table_of_code(px.compile_src(src), envs)
     i = first_diff(got, exp)
     if i is not None:
         raise MachineryError('PyExpr.Eval disagrees with CPython on %s with %s: spec %r, CPython %r' % (src, plain[i], exp[i], got[i]))
@@ -159,7 +167,7 @@ def check_regeneration(ctx, c, pts, r, names, space):
         ctx.mismatch(signature('ast2src', features(e)), 'ast2src fails on the tree of %s: %s: %s' % (src, type(ex).__name__, ex), rep)
         return None
     try:
-        code = compile(regenerated, '<c04 regenerated>', 'eval')
+        code = px.compile_src(regenerated, '<c04 regenerated>')
     except SyntaxError as ex:
         c['regen_mismatch'] += 1
         ctx.mismatch(signature('ast2src', features(e)), 'ast2src turns the tree of %s into %r, which does not compile (%s)' % (src, regenerated, ex.msg), rep)
